@@ -7,7 +7,7 @@ import sympy as sp
 
 from .. import terms as TM
 from ..absint import Interp, Unsupported
-from .common import public_functional
+from .common import is_callable_value, public_functional
 from ..core import AnalysisError, Report, Repo
 from ..oracle import oracle_function, std_globals
 from ..schemas import O, P, dim, hyper
@@ -106,7 +106,7 @@ def check(report: Report, repo: Repo) -> None:
     base = f"{CF}::transformer_residual_scaling_rule._tau"
     try:
         tau_fn = it.run(rule, residual_mult=m, residual_attn_ratio=r)
-        if not isinstance(tau_fn, FuncV):
+        if not is_callable_value(it, tau_fn):
             report.add("R1-tau", base, None, f"the rule does not return a local function but {fmt(tau_fn)}")
         else:
             for par, idx in (("even", 2 * k), ("odd", 2 * k + 1)):
@@ -182,7 +182,7 @@ def check(report: Report, repo: Repo) -> None:
         init = it3.class_attr(c, "__init__")
         b = it3.bind(init, [None], dict(layers=2, **({"hidden_size": 8, "vocab_size": 9, "heads": 2} if cname == "TransformerDecoder" else {})))
         dflt = b.get("residual_scaling")
-        ok = isinstance(dflt, FuncV) and dflt.qualname.endswith("_tau")
+        ok = is_callable_value(it3, dflt)
         if ok:
             try:
                 got = it3.call_function(dflt, [2 * k + 1, L], {})
